@@ -18,7 +18,7 @@ func init() {
 		Run:   runC20,
 		Level: "exploration",
 		Rule: "a run = a grpc/json ammo file (1-8 entries over the example service's Hello / Auth / List / Order methods with drawn field combinations and metadata maps carrying a per-entry marker, mixed with unknown methods and payloads that do not fit the input type) or a gRPC scenario description (calls with templated payload and metadata fed from a [next] data-source row) " +
-			"fired by the real grpc or grpc/scenario gun (shared client on/off, timeout option, 1-5 instances) through the real engine and grpc-go at a real grpc-go server with reflection inside the bubble over the simulated network; a server-side interceptor logs method, message fields, incoming metadata and deadline; " +
+			"fired by the real grpc or grpc/scenario gun (shared client on/off, timeout option, tls option on/off against the same server behind TLS, 1-5 instances) through the real engine and grpc-go at a real grpc-go server with reflection inside the bubble over the simulated network; a server-side interceptor logs method, message fields, incoming metadata and deadline; " +
 			"oracle: per good entry one call to exactly the named method with the entry's fields and metadata (never another entry's), deadline within the configured timeout, bad entries give a failed sample and no call, calls == good entries x passes; non-trivial = at least two instances or a bad entry mixed with good ones; distinct = distinct schedule-trace hash",
 		Components: map[string]string{
 			"components/guns/grpc (core, shared deps)": "real", "components/guns/grpc/scenario": "real", "components/providers/grpc/grpcjson": "real", "components/providers/scenario/grpc": "real", "core/engine": "real",
@@ -135,11 +135,16 @@ func runC20(r *R) {
 	if shared {
 		gun["shared-client"] = map[string]interface{}{"enabled": true, "client-number": 1 + w.Draw(2)}
 	}
+	useTLS := w.Draw(4) == 0
+	if useTLS {
+		gun["tls"] = true
+		r.Note("transport:tls")
+	}
 	var descr []string
 	for _, e := range ents {
 		descr = append(descr, fmt.Sprintf("%s %s %s md=%v good=%v", e.Tag, e.Call, e.Fields, e.MD, e.Good))
 	}
-	r.Sample(map[string]any{"mode": "grpc/json", "entries": descr, "passes": passes, "instances": inst, "shared_client": shared, "timeout": timeout.String(), "latency": lat.String()})
+	r.Sample(map[string]any{"mode": "grpc/json", "entries": descr, "passes": passes, "instances": inst, "shared_client": shared, "timeout": timeout.String(), "latency": lat.String(), "tls": useTLS})
 	if inst >= 2 || (bad > 0 && good > 0) {
 		r.NonTrivial()
 	}
@@ -149,7 +154,7 @@ func runC20(r *R) {
 		Gun:       gun,
 		Instances: inst, Tokens: n*passes + 2,
 		Files: map[string][]byte{"/ammo/grpc.json": []byte(file.String())},
-	}, func(nw *simnet.Net) { nw.Latency = lat }, func(nw *simnet.Net) { tgt = startGRPCTarget(nw, target, nil) })
+	}, func(nw *simnet.Net) { nw.Latency = lat }, func(nw *simnet.Net) { tgt = startGRPCTargetTLS(nw, target, useTLS, nil) })
 	if c20Infra(r, res, "grpc") {
 		return
 	}
@@ -289,17 +294,21 @@ func c20Scenario(r *R) {
 	inst := 1 + w.Draw(4)
 	lat := []time.Duration{100 * time.Microsecond, 3 * time.Millisecond}[w.Draw(2)]
 	target := "10.0.0.21:9090"
-	r.Sample(map[string]any{"mode": "grpc/scenario", "rows": rows, "orders": norder, "pause_ms": pause, "invocations": invocations, "instances": inst, "latency": lat.String()})
+	useTLS := w.Draw(4) == 0
+	if useTLS {
+		r.Note("transport:tls")
+	}
+	r.Sample(map[string]any{"mode": "grpc/scenario", "rows": rows, "orders": norder, "pause_ms": pause, "invocations": invocations, "instances": inst, "latency": lat.String(), "tls": useTLS})
 	if inst >= 2 {
 		r.NonTrivial()
 	}
 	var tgt *grpcTarget
 	res := runHTTPPool(r, httpPoolSpec{
 		Ammo:      map[string]interface{}{"type": "grpc/scenario", "file": "/ammo/scenario.yaml", "limit": invocations},
-		Gun:       map[string]interface{}{"type": "grpc/scenario", "target": target, "timeout": "2s"},
+		Gun:       map[string]interface{}{"type": "grpc/scenario", "target": target, "timeout": "2s", "tls": useTLS},
 		Instances: inst, Tokens: invocations + 2,
 		Files: map[string][]byte{"/ammo/scenario.yaml": []byte(b.String()), "/ammo/users.csv": []byte(csv.String())},
-	}, func(nw *simnet.Net) { nw.Latency = lat }, func(nw *simnet.Net) { tgt = startGRPCTarget(nw, target, nil) })
+	}, func(nw *simnet.Net) { nw.Latency = lat }, func(nw *simnet.Net) { tgt = startGRPCTargetTLS(nw, target, useTLS, nil) })
 	if c20Infra(r, res, "grpc-scenario") {
 		return
 	}
